@@ -10,5 +10,5 @@ CONSTANTS
   DocKinds <- KindsFull
   DocMax = 5
 SPECIFICATION Spec
-INVARIANTS DecTypeOK DecResultIsContract FirstWithinAnyClass DataIffWellFormed
+INVARIANTS DecTypeOK DecResultIsContract FirstWithinAnyClass DataIffWellFormed PromptDelivery BoundedBuffer
 CHECK_DEADLOCK FALSE
